@@ -257,6 +257,7 @@ M_COLUMN.harnesses.append(H("u16_index_walk_visits_every_live_entry", "U16", kin
 M_COLUMN.harnesses.append(H("u17_iter_values_visits_every_table", "U17", kind="bounded", shape="HashColumn::iter_values (ValueTable::iter_while by contract)", bound="a column with 3 value tables (2 fixed tiers + blob table) instead of 256"))
 # (u20_reindex_batch_*: written, but the queued IndexTable lives on the heap (VecDeque), which hides its size from the symbolic
 # executor; the batch loop is then unrolled to the bound and the harness exceeds the budget -- not registered)
+M_COLUMN.harnesses.append(H("u15_search_all_indexes_order", "U15", kind="bounded", shape="search_all_indexes over current + two queued indexes (search_index by contract)", bound="two queued old indexes"))
 for n in ["u22_drop_index_advances_to_next_queued_index", "u22_trigger_reindex_queues_the_old_index"]:
     M_COLUMN.harnesses.append(H(n, "U22", kind="bounded", shape=n[4:], bound="a column with two queued old indexes (16, 17 bits) and an 18-bit current index; IndexTable::drop_file by contract"))
 M_COLUMN.harnesses.append(H("u11_child_count_representable", "U11"))
@@ -323,6 +324,8 @@ M_DB = KModule("db", "src/db.rs", "verif_db", "db.rs", deps=(M_LOG,))
 M_DB.harnesses.append(H("u21_replay_applies_only_the_next_record_in_sequence", "U21", kind="bounded",
                         shape="DbInner::enact_logs(validation) on one empty record with arbitrary record id and arbitrary last-enacted id",
                         bound="a database without columns and a record without actions; Log::{read_next,end_read,clear_replay_logs} and LogReader::{next,reset} by contract"))
+
+M_DB.harnesses.append(H("u24_operations_are_ordered_by_key_only", "U24"))
 
 # units whose harnesses call the real code without recorder / contract stubs: Kani's counterexample replays natively
 NATIVE_REPLAY_UNITS = {"U1", "U2", "U4", "U5", "U7", "U11"}
@@ -437,7 +440,7 @@ PROPS["C08"] = {
     "does_not_cover": ["side effects of commit_changes before commit_raw (claimed node slots, to_dereference)", "bg_err state", "clean_overlay (Entry API)"],
 }
 PROPS["C07"] = {
-    "kani_units": ["U8d", "U17"],
+    "kani_units": ["U8d", "U17", "U15", "U24"],
     "verus_units": ["ref_counter", "overlay_publish"],
     "level": "other",
     "technique": "Verus proof of the counter transition fragment of the real change_ref (all u32 counters) and of the overlay mirroring rules",
@@ -449,7 +452,7 @@ PROPS["C07"] = {
 }
 
 PROPS["C04"] = {
-    "kani_units": ["U12", "U23"],
+    "kani_units": ["U12", "U23", "U24"],
     "verus_units": [],
     "level": "other",
     "technique": "Kani/CBMC contracts on the real btree node operations (array operations complete over ORDER=8; rebalance with child I/O replaced by contracts)",
@@ -488,6 +491,7 @@ UNIT_META = {
             "assumes": ["Log::{read_next,end_read,clear_replay_logs} and LogReader::{next,reset} replaced by contracts; the record has no actions"]},
     "U22": {"functions": ["column::HashColumn::{trigger_reindex,drop_index}"], "assumes": ["IndexTable::drop_file replaced by a counter (file removal)"]},
     "U23": {"functions": ["btree::btree::BTree::write_sorted_changes"], "assumes": ["Node::change / need_remove_root / BTree::fetch_root / BTreeTable::write_node_plan / write_plan_remove_node replaced by contracts (scripted outcomes)"]},
+    "U24": {"functions": ["db::Operation::{cmp,partial_cmp,key}"], "assumes": []},
     "U11": {"functions": ["column::{unpack_node_data,unpack_node_children,packed_node_size,packed_child_count}"], "assumes": []},
     "U14": {"functions": ["table::ValueTable::{clear_slot,next_free,read_next_free,complete_plan,write_remove_plan,clear_chain}"], "assumes": ["LogWriter ghost view"]},
     "index_search": {"functions": ["index::Entry::*", "index::Address::*", "index::IndexTable::{chunk_index,find_entry_base}"], "assumes": ["read_entry contract (external_body; proved by Kani U1.read_entry_is_le_word)"]},
